@@ -663,7 +663,7 @@ fn variants(ctx: &Ctx, fam: &Value, field: &str) -> Vec<Art> {
     let lit = literal(b"hello world");
     let mut out: Vec<Art> = Vec::new();
     // layers that do not depend on the container are swept once per carrier; for the others the base artefact still goes through
-    let first_cont = if carrier == "skesk_v5" { "gnupg_aead" } else if carrier.starts_with("pkesk6_") { "seipd_v2" } else { "seipd_v1" };
+    let first_cont = if carrier == "skesk_v5" { "gnupg_aead" } else if carrier.starts_with("pkesk6_") || carrier == "skesk_v6" { "seipd_v2" } else { "seipd_v1" };
     if kind == "message" && matches!(target, "framing" | "esk_fields" | "session_plaintext") && cont != first_cont && field != "truncate_every_prefix" {
         return wrap_message(ctx, carrier, cont, &lit, seed).map(|m| vec![Art::Message(m)]).unwrap_or_default();
     }
@@ -728,6 +728,22 @@ fn variants_inner(ctx: &Ctx, fam: &Value, field: &str, kind: &str, target: &str,
             let base = wrap_message(ctx, carrier, cont, &lit, seed).unwrap_or_default();
             let r = match field { "version" => 0..1, "algorithm" => 1..3, "key_id" => 1..10, "s2k_type" | "s2k_hash" | "s2k_count" | "aead" | "length_octets" => 1..16, _ => 9..24 };
             out.extend(octet_sweep(&base, 0, r, th).into_iter().map(Art::Message));
+            // Argon2 specifiers (type 4: salt, passes, lanes, encoded memory) cannot be reached by changing one octet of an iterated specifier:
+            // well-formed SKESKs with every value of each parameter (memory exponents 13..31 are left to C19's cost-ceiling family)
+            if field == "s2k_count" && matches!(carrier, "skesk_v4" | "skesk_v6") {
+                let tail = container(cont, &rb(seed ^ 0xA2, 16), &lit, seed).unwrap_or_default();
+                for (t, p, m) in (0..=255u8).map(|m| (1u8, 1u8, m)).chain((0..=255u8).map(|t| (t, 1, 3))).chain((0..=255u8).map(|p| (1, p, 10))) {
+                    if (13..=31).contains(&m) { continue; }
+                    let mut spec = vec![4u8];
+                    spec.extend(rb(seed ^ 0xA3, 16));
+                    spec.extend([t, p, m]);
+                    let mut b = if carrier == "skesk_v4" { let mut b = vec![4u8, 7]; b.extend(&spec); b.extend(rb(seed ^ 0xA4, 17)); b }
+                        else { let mut b = vec![6u8, (3 + spec.len() + 15) as u8, 7, 2, spec.len() as u8]; b.extend(&spec); b.extend(rb(seed ^ 0xA5, 15 + 16 + 16)); b };
+                    let mut msg = pkt(3, &std::mem::take(&mut b));
+                    msg.extend(&tail);
+                    out.push(Art::Message(msg));
+                }
+            }
         }
         ("message", "session_plaintext") => {
             let wrap_kw = carrier.starts_with("pkesk_ecdh") || carrier.starts_with("pkesk_x") || carrier == "pkesk6_ecdh_p256";
